@@ -226,7 +226,7 @@ def clStart (s : Nat) : List (Act RT) :=
     { name := "cl.start.end", guard := fun rt => atPc rt (.startAt s) && (nextValid rt s).isNone,
       upd := fun rt => setPc { rt with state := .running } .next, out := fun _ => ["API start -> ok"] },
     { name := "cl.start.sto", guard := fun rt => atPc rt (.stoStart s),
-      upd := fun rt => setPc (modS rt s fun st => { st with sto := { st.sto with state := .running, run := st.sto.run + 1, nappend := 0, failed := false, log := [], base := st.sinkCh.total, appended := st.sinkCh.total, clean := decide (st.sinkCh.idx.getD 0 0 = st.sinkCh.total) } })
+      upd := fun rt => setPc (modS rt s fun st => { st with sto := { st.sto with state := .running, run := st.sto.run + 1, nappend := 0, failed := false, log := [], base := st.sinkCh.total, appended := st.sinkCh.total, ncommit := 0, dropped := false, clean := decide (st.sinkCh.idx.getD 0 0 = st.sinkCh.total) } })
                              (.accLock s true 0),
       out := fun rt => [s!"DRV {stoDev s} start run={(getS rt s).sto.run + 1} -> running"] },
     { name := "cl.start.snk", guard := fun rt => atPc rt (.createSnk s),
